@@ -68,6 +68,55 @@ def worker(job):
     return {"n": n, "fails": fails}
 
 
+def special(repo):
+    """two page shapes outside the grammar above: (1) the dependency placeholders written in the template of a component that is
+    itself the ROOT of another component's template (nesting depth 1..3) - its root elements carry one render-id attribute per
+    enclosing component; (2) ONE page that uses 160 distinct component classes, each with inline JS and CSS (more scripts than a
+    default-sized Django cache holds)"""
+    sys.path.insert(0, os.path.join(repo, "src"))
+    sys.path.insert(1, repo)
+    from tests.django_test_setup import setup_test_config
+    setup_test_config({"autodiscover": False})
+    from django_components import Component, registry
+    n, fails = 0, []
+    inner = type("PhInner", (Component,), {"template": "{% load component_tags %}{% component_css_dependencies %}<div>inner</div>{% component_js_dependencies %}",
+                                           "js": "console.log('js-ph');", "css": ".css-ph { color: red; }"})
+    registry.register("ph0", inner)
+    for depth in (1, 2, 3):
+        registry.register(f"ph{depth}", type(f"PhOuter{depth}", (Component,), {"template": "{% load component_tags %}{% component 'ph" + str(depth - 1) + "' / %}"}))
+        n += 1
+        try:
+            out = registry.get(f"ph{depth}").render()
+            what = None
+            if "CSS_PLACEHOLDER" in out or "JS_PLACEHOLDER" in out:
+                what = "a placeholder survived"
+            elif out.count("console.log('js-ph')") != 1 or out.count(".css-ph {") != 1:
+                what = f"inline JS {out.count(chr(99) + 'onsole.log(' + chr(39) + 'js-ph')} times, inline CSS {out.count('.css-ph {')} times"
+            elif "_RENDERED" in out:
+                what = "a dependency marker comment survived"
+        except Exception as e:      # noqa: BLE001
+            what, out = f"{type(e).__name__}: {e}"[:200], ""
+        if what:
+            fails.append({"input": {"page": f"a component whose root is a component (x{depth}) whose template holds both dependency placeholders, rendered with Component.render()"},
+                          "clause": "placeholders are replaced by the JS / CSS of the rendered components, none survives", "observed": what, "output": out[:300]})
+    N = 160
+    for i in range(N):
+        registry.register(f"many{i}", type(f"Many{i}", (Component,), {"template": f"<p>m{i}</p>", "js": f"console.log('many-{i}');", "css": f".many-{i} {{ color: red; }}"}))
+    page = type("ManyPage", (Component,), {"template": "{% load component_tags %}<html><head></head><body>" + "".join("{% component 'many" + str(i) + "' / %}" for i in range(N)) + "</body></html>"})
+    n += 1
+    try:
+        out = page.render()
+        got = [int(x) for x in re.findall(r"console\.log\('many-(\d+)'\)", out)]
+        gotc = [int(x) for x in re.findall(r"\.many-(\d+) \{", out)]
+        what = None if got == list(range(N)) and gotc == list(range(N)) else f"inline JS of {len(got)} and CSS of {len(gotc)} of the {N} rendered classes"
+    except Exception as e:      # noqa: BLE001
+        what = f"{type(e).__name__}: {e}"[:200]
+    if what:
+        fails.append({"input": {"page": f"one document that uses {N} distinct component classes, each with inline JS and CSS, once"},
+                      "clause": "exactly the JS / CSS of the rendered components, once, in order of first appearance", "observed": what})
+    return {"n": n, "fails": fails}
+
+
 def run(repo, maxuses=3, procs=8):
     import multiprocessing as mp
     units = list(COMPS) + [(a, b) for a in COMPS for b in COMPS]
@@ -77,7 +126,8 @@ def run(repo, maxuses=3, procs=8):
     ctx = mp.get_context("spawn")
     with ctx.Pool(procs) as pool:
         res = pool.map(worker, [(repo, pages[k::procs]) for k in range(procs)])
-    return {"space": f"all {len(pages)} pages with <= {maxuses} component uses over 3 component classes - one of them renders no visible output - (plain or nested through a slot; from the third use on plain only) x 4 placeholder layouts, document mode",
+        res.append(pool.apply(special, (repo,)))
+    return {"space": f"(plus 4 special pages: dependency placeholders inside a component that is the root of 1-3 enclosing components; one page with 160 component classes) all {len(pages)} pages with <= {maxuses} component uses over 3 component classes - one of them renders no visible output - (plain or nested through a slot; from the third use on plain only) x 4 placeholder layouts, document mode",
             "evaluations": sum(r["n"] for r in res), "failures": [f for r in res for f in r["fails"]][:8], "exhaustive": True}
 
 
